@@ -185,6 +185,26 @@ func Hostile() []Seed {
 	add("jpeg-app2-short", []byte{0xFF, 0xD8, 0xFF, 0xE2, 0, 15, 'I', 'C', 'C', '_', 'P', 'R', 'O', 'F', 'I', 'L', 'E', 0, 1, 0xFF, 0xC0, 0, 8, 8, 0, 1, 0, 1, 0})
 	add("jpeg-icc-total0", []byte{0xFF, 0xD8, 0xFF, 0xE2, 0, 16, 'I', 'C', 'C', '_', 'P', 'R', 'O', 'F', 'I', 'L', 'E', 0, 1, 0, 0xFF, 0xC0, 0, 8, 8, 0, 1, 0, 1, 0})
 	add("jpeg-rst-in-header", []byte{0xFF, 0xD8, 0xFF, 0xD0, 0xFF, 0xD8, 0xFF, 0xC0, 0, 8, 8, 0, 1, 0, 1, 0, 0xFF, 0xDA, 0, 2, 0xFF, 0, 0xFF, 0xD7, 0xFF, 0xFF, 0xD9})
+	// files that end exactly where their last structure ends: a WebP whose final chunk is the profile (odd length, so
+	// the RIFF pad byte after it is the only thing missing - many writers leave it out - and even length), a PNG
+	// that stops after iCCP's CRC, a JPEG that stops after its frame header
+	for _, n := range []int{131, 132, 1, 2} {
+		prof := make([]byte, n)
+		for i := range prof {
+			prof[i] = byte(i*7 + n)
+		}
+		w, _ := build.WebP{Chunks: []build.RIFFChunk{{FourCC: "VP8X", Data: build.VP8XHeader(0x20, 9, 6)}, {FourCC: "ICCP", Data: prof}}}.Bytes()
+		if n%2 == 1 {
+			w = w[:len(w)-1] // no pad byte after the odd payload
+		}
+		add(fmt.Sprintf("webp-ends-after-iccp-%d", n), w)
+	}
+	{
+		p, m := build.PNG{W: 3, H: 2, Depth: 8, ColorType: 2, Pre: []build.Chunk{build.ICCPChunk("p", []byte("0123456789abcdef"), 6)}, IDAT: []byte{1}}.Bytes()
+		add("png-ends-after-iccp", p[:m.Marks["needEnd"]])
+		j, jm := build.JPEG{Segs: []build.Seg{build.ICCSeg(1, 1, []byte("0123456789abcdefg")), {Marker: 0xC0, Data: build.SOF(8, 2, 3, [][3]byte{{1, 0x11, 0}})}}, SOS: []byte{1, 1, 0, 0, 63, 0}}.Bytes()
+		add("jpeg-ends-after-sof", j[:jm.Marks["sofEnd"]])
+	}
 	for _, n := range []uint32{0, 1, 8, 9, 12, 14, 0xFFFFFFFF, 0x80000000} { // IHDR length edges
 		d := append([]byte(nil), build.PNGSig...)
 		d = append(d, byte(n>>24), byte(n>>16), byte(n>>8), byte(n), 'I', 'H', 'D', 'R', 0, 0, 0, 1, 0, 0, 0, 1, 8, 2, 0, 0, 0, 1, 2, 3, 4, 0, 0, 0, 0, 'I', 'D', 'A', 'T')
